@@ -146,6 +146,30 @@ static int components() {
       }
     }
   }
+  // the setters of the manual kind are documented as no-ops on every other kind: a zone-backed (or error) time zone must
+  // answer exactly as before after they were called on it
+  {
+    BasicZoneProcessor bq; ExtendedZoneProcessor xq;
+    BasicZoneManager<2> bmq(zonedb::kZoneRegistrySize, zonedb::kZoneRegistry);
+    ExtendedZoneManager<2> xmq(zonedbx::kZoneRegistrySize, zonedbx::kZoneRegistry);
+    TimeZone zs[6] = { TimeZone::forZoneInfo(&zonedb::kZoneAmerica_Los_Angeles, &bq), TimeZone::forZoneInfo(&zonedbx::kZoneEurope_London, &xq),
+                       bmq.createForZoneIndex(5), xmq.createForZoneIndex(7), TimeZone::forError(), TimeZone::forUtc() };
+    static const int vals[] = {-32768, -961, -60, 0, 60, 345, 32767};
+    for (int k = 0; k < 6; k++) for (int v : vals) {
+      TimeZone before = zs[k];
+      TimeZone tz = zs[k];
+      tz.setDstOffset(TimeOffset::forMinutes((int16_t) v));
+      if (k != 5) tz.setStdOffset(TimeOffset::forMinutes((int16_t) (v / 2)));
+      nops += 2;
+      if (k < 5) {
+        if (!(tz == before) || tz.getZoneId() != before.getZoneId() || tz.getType() != before.getType()) fail("setter of the manual kind changed a time zone of another kind", k, v, 0);
+        TimeOffset a = tz.getUtcOffset((acetime_t) 300000000), b = before.getUtcOffset((acetime_t) 300000000);
+        if (a.isError() != b.isError() || (!a.isError() && a.toMinutes() != b.toMinutes())) fail("time zone answers differently after a manual-kind setter", k, v, 1);
+        Print p1, p2; tz.printTo(p1); before.printTo(p2);
+        if (p1.buf != p2.buf) fail("time zone prints differently after a manual-kind setter", k, v, 2);
+      }
+    }
+  }
   // time offsets, periods, mutation helpers on every int16 / byte value
   for (long v = -32768; v <= 32767; v++) {
     TimeOffset o = TimeOffset::forMinutes((int16_t) v);
